@@ -105,6 +105,11 @@ def mk(k, names, S_order=None, R_order=None, lform='set', rev_L=False, atom_map=
             items.append((names2[i], sorted(lab2[i])))
     if rev_L:
         items = items[::-1]
+    if lform == 'shared':
+        # states with equal labels are given one and the same set object (empty = set() reused, ...)
+        pool = {}
+        L = dict((nm, pool.setdefault(tuple(labs), set(labs))) for nm, labs in items)
+        return Kripke(S=S, R=R, L=L)
     conv = {'set': set, 'list': list, 'frozenset': frozenset, 'tuple': tuple}[lform]
     L = dict((nm, conv(labs)) for nm, labs in items)
     return Kripke(S=S, R=R, L=L)
@@ -212,7 +217,7 @@ def presentations(inst, tier):
                                'list-order', S_order=list(so), R_order=list(ro)):
                 return
     # 3. label containers / insertion order
-    for lform in ('list', 'frozenset', 'tuple'):
+    for lform in ('list', 'frozenset', 'tuple', 'shared'):
         for rev in (False, True):
             if not inst.expect(back(run_mc(c, mk(k, ident, lform=lform, rev_L=rev), f), ident), 'labels',
                                lform=lform, reversed=rev):
@@ -242,7 +247,7 @@ def presentations(inst, tier):
                                    kcase(k, f, checker=c, presentation='atoms-under-fairness', atom_map=m,
                                          F=[sorted(x) for x in F]), baseF, r)
                 return
-        for lform in ('list', 'frozenset'):
+        for lform in ('list', 'frozenset', 'shared'):
             r = back(run_mc(c, mk(k, ident, lform=lform), f, F=[set(x) for x in F]), ident)
             inst.acc.add('schedules')
             if r != baseF:
@@ -269,6 +274,12 @@ def presentations(inst, tier):
                 if not inst.expect(back(run_mc(c, Kl, f), ident), 'unreachable-extra', extra=ei,
                                    cross=[list(x) for x in cross], negative_names=first):
                     return
+                if not first:
+                    # the added states share their label set objects with equally labelled original states
+                    Kl = mk(k, ident, extra=(n2, succ2, lab2, cross, names2), lform='shared')
+                    if not inst.expect(back(run_mc(c, Kl, f), ident), 'unreachable-extra', extra=ei,
+                                       cross=[list(x) for x in cross], shared_label_sets=True):
+                        return
 
 
 # ------------------------------------------------------------------ iteration orders
